@@ -1,6 +1,7 @@
 // E2 harness for C13: pika::thread / pika::jthread join, detach, exit callbacks, interruption.
 // usage: e2_join <seed> <perturb_per_1024> <prog> <size> [pika options...]
-//   prog: mixed | basic | usercb | twojoin | interrupt | jthread | nested | errors
+//   prog: mixed | basic | usercb | twojoin | interrupt | jthread | nested | errors | moves | jtmove | movejoin |
+//         handles | mixed2 | dtorterm (negative) | joinintr (directed, finding) | yieldintr (finding)
 // The real runtime runs generated scenarios; every instrumented operation (hooks `jn.* jt.* ec.*
 // ip.*` in thread.cpp / thread.hpp / jthread.hpp / thread_data.{hpp,cpp}) is appended to the exact
 // E2 log.  Prints: log lines, `monitor <text>` lines (violations seen from observables only), `stat`
@@ -19,6 +20,7 @@
 
 #include <atomic>
 #include <chrono>
+#include <cstdlib>
 #include <map>
 #include <memory>
 #include <mutex>
@@ -501,6 +503,230 @@ static void sc_jthread(std::uint64_t seed)
     if (mode == 1 && !saw_stop->load()) monitor("jthread: body never saw the stop request");
 }
 
+
+// ------------------------------------------------------------------------------------------------
+// follow-up C13m: handle operations (move construction / assignment, swap, containers of handles,
+// destruction) and jthread moves
+static void expect_invalid_status_join(pika::thread& t, char const* who)
+{
+    bool threw = false;
+    try { t.join(); }
+    catch (pika::exception const& e) { threw = e.get_error() == pika::error::invalid_status; }
+    if (!threw) monitor(std::string(who) + ": join of a handle that is not joinable did not report invalid_status");
+}
+
+static void sc_moves(std::uint64_t seed)
+{
+    rng r{seed};
+    auto st = std::make_shared<target_state>();
+    pika::thread t(make_body(int(r.below(b_spawning)), r.next(), st));
+    yields(int(r.below(3)));
+    pika::thread t2(std::move(t));    // move construction
+    if (t.joinable()) monitor("moves: moved-from handle still joinable");
+    if (!t2.joinable()) monitor("moves: moved-to handle not joinable");
+    if (r.below(2)) expect_invalid_status_join(t, "moves(moved-from)");
+    pika::thread t3;
+    switch (r.below(5))
+    {
+    case 0: t3 = std::move(t2); break;    // move assignment into an empty handle
+    case 1: t3.swap(t2); break;
+    case 2: swap(t2, t3); break;
+    case 3:
+    {
+        // a container of handles: growth moves every element (move construction + destruction)
+        std::vector<pika::thread> v;
+        v.push_back(std::move(t2));
+        for (int i = 0, n = 1 + int(r.below(4)); i < n; ++i) v.emplace_back();
+        v.shrink_to_fit();
+        if (!v[0].joinable()) monitor("moves: handle lost its thread inside a vector");
+        t3 = std::move(v[0]);
+        break;
+    }
+    default:
+    {
+        // there and back again
+        t3 = std::move(t2);
+        t2.swap(t3);
+        pika::thread t4(std::move(t2));
+        t3 = std::move(t4);
+        break;
+    }
+    }
+    if (t2.joinable()) monitor("moves: source handle still joinable after the transfer");
+    if (!t3.joinable()) monitor("moves: destination handle not joinable after the transfer");
+    yields(int(r.below(3)));
+    if (r.below(4) == 0)
+    {
+        t3.detach();
+        if (t3.joinable()) monitor("moves: joinable after detach");
+        expect_invalid_status_join(t3, "moves(detached)");
+    }
+    else
+    {
+        checked_join(t3, st, "moves");
+        expect_invalid_status_join(t3, "moves(joined)");
+    }
+    if (r.below(2))
+    {
+        // a joined handle can be bound to a new thread by move assignment from a temporary
+        auto st2 = std::make_shared<target_state>();
+        t3 = pika::thread(make_body(int(r.below(b_blocking)), r.next(), st2));
+        if (!t3.joinable()) monitor("moves: re-bound handle not joinable");
+        checked_join(t3, st2, "moves(rebound)");
+    }
+    stat("moves");
+}
+
+// jthread moves: the stop source travels with the thread; only the owning jthread's destructor stops and joins
+static void sc_jtmove(std::uint64_t seed)
+{
+    rng r{seed};
+    auto st = std::make_shared<target_state>();
+    auto saw = std::make_shared<std::atomic<int>>(0);
+    int mode = int(r.below(4));
+    int d = int(r.below(4));
+    {
+        pika::jthread a([=](pika::stop_token tok) {
+            activity act;
+            int w = 0;
+            while (!tok.stop_requested() && ++w < 3000) pika::this_thread::yield();
+            saw->store(tok.stop_requested() ? 1 : 2);
+            st->finished.store(1);
+        });
+        yields(d);
+        pika::jthread b(std::move(a));
+        if (a.joinable()) monitor("jtmove: moved-from jthread still joinable");
+        if (!b.joinable()) monitor("jtmove: moved-to jthread not joinable");
+        if (mode == 1)
+        {
+            pika::jthread c;
+            c = std::move(b);    // into a jthread that is not joinable
+            if (b.joinable() || !c.joinable()) monitor("jtmove: move assignment did not transfer the thread");
+        }    // ~c stops and joins
+        else if (mode == 2)
+        {
+            pika::jthread c;
+            c.swap(b);
+            if (b.joinable() || !c.joinable()) monitor("jtmove: swap did not exchange the threads");
+        }
+        else if (mode == 3)
+        {
+            std::vector<pika::jthread> v;
+            v.push_back(std::move(b));
+            v.emplace_back();
+            v.shrink_to_fit();
+        }
+        if (mode != 0 && st->finished.load() != 1) monitor("jtmove: destructor of the owning jthread returned before the thread function finished");
+    }    // mode 0: ~b stops and joins; ~a has nothing to do
+    if (st->finished.load() != 1) monitor("jtmove: destructors returned before the thread function finished");
+    if (saw->load() == 0) monitor("jtmove: body did not finish");
+    stat("jtmove");
+}
+
+// a handle is moved away by another task while a joiner is (possibly) suspended in join on it
+static void sc_movejoin(std::uint64_t seed)
+{
+    rng r{seed};
+    auto st = std::make_shared<target_state>();
+    auto t = std::make_shared<pika::thread>(make_body(int(r.below(b_spawning)), r.next(), st));
+    auto t2 = std::make_shared<pika::thread>();
+    int d1 = int(r.below(4)), d2 = int(r.below(5));
+    pika::thread J([=] {
+        activity a;
+        yields(d1);
+        try
+        {
+            t->join();
+            if (st->finished.load() != 1) monitor("movejoin: join returned before the thread function finished");
+            stat("movejoin_joined");
+        }
+        catch (pika::exception const& e)
+        {
+            if (e.get_error() != pika::error::invalid_status) monitor("movejoin: unexpected error from join");
+            stat("movejoin_moved_first");
+        }
+    });
+    pika::thread M([=] {
+        activity a;
+        yields(d2);
+        *t2 = std::move(*t);
+    });
+    J.join();
+    M.join();
+    if (t->joinable()) monitor("movejoin: moved-from handle joinable");
+    if (t2->joinable()) checked_join(*t2, st, "movejoin(second)");
+}
+
+// NEGATIVE program (not part of the default set): destroys a joinable pika::thread with a termination handler
+// installed -> the error event `jn.dtorterm` must be reported by the driver
+static void sc_dtorterm(std::uint64_t seed)
+{
+    rng r{seed};
+    pika::set_thread_termination_handler([](std::exception_ptr const&) { stat("termination_handler"); });
+    auto st = std::make_shared<target_state>();
+    {
+        pika::thread t(make_body(int(r.below(b_blocking)), r.next(), st));
+        yields(int(r.below(3)));
+    }    // ~thread of a joinable handle
+    yields(8);
+}
+
+// DIRECTED program for the finding `interrupted-join-stale-callback` (not part of the default set):
+// J joins o1, is interrupted while suspended inside join, catches thread_interrupted and joins o2; then o1
+// exits: its exit callback for J is still registered and resumes J, whose join(o2) returns although o2 runs
+static void sc_joinintr(std::uint64_t)
+{
+    struct sh
+    {
+        pika::counting_semaphore<> sem1{0}, sem2{0};
+        std::atomic<int> stage{0}, fin1{0}, fin2{0}, early{0}, intr{0};
+    };
+    auto s = std::make_shared<sh>();
+    auto o1 = std::make_shared<pika::thread>([=] { activity a; s->sem1.acquire(); s->fin1.store(1); });
+    auto o2 = std::make_shared<pika::thread>([=] { activity a; s->sem2.acquire(); s->fin2.store(1); });
+    pika::thread J([=] {
+        activity a;
+        try
+        {
+            s->stage.store(1);
+            o1->join();
+        }
+        catch (pika::thread_interrupted const&)
+        {
+            s->intr.store(1);
+        }
+        s->stage.store(2);
+        try
+        {
+            o2->join();
+            if (s->fin2.load() != 1)
+            {
+                s->early.store(1);
+                monitor("joinintr: join returned before the thread function finished (exit callback left behind by an interrupted join)");
+            }
+        }
+        catch (pika::exception const&) { monitor("joinintr: second join threw"); }
+        s->stage.store(3);
+    });
+    // (OS-level sleeps, not yields - pika has no timed suspension here: a yielding task is re-queued with boosted priority and would starve J; no
+    // verdict depends on these durations - they only make the window likely)
+    auto nap = [](int ms) { std::this_thread::sleep_for(std::chrono::milliseconds(ms)); };    // blocks this worker; needs >= 2 workers
+    for (int i = 0; i < 400 && s->stage.load() < 1; ++i) nap(1);
+    nap(5);
+    J.interrupt();
+    for (int i = 0; i < 400 && s->stage.load() < 2; ++i) nap(1);
+    nap(5);
+    if (s->intr.load() && !o1->joinable()) monitor("joinintr: handle not joinable after an interrupted join");
+    s->sem1.release();    // o1 exits and runs its exit callbacks
+    for (int i = 0; i < 50 && s->stage.load() < 3; ++i) nap(1);
+    s->sem2.release();
+    J.join();
+    if (o1->joinable()) o1->join();
+    if (o2->joinable()) o2->join();
+    stat("joinintr_interrupted", s->intr.load());
+    stat("joinintr_early_return", s->early.load());
+}
+
 static void scenario(std::string const& prog, std::uint64_t seed)
 {
     rng r{seed};
@@ -511,6 +737,13 @@ static void scenario(std::string const& prog, std::uint64_t seed)
     else if (prog == "interrupt" || prog == "yieldintr") k = 5;
     else if (prog == "jthread") k = 6;
     else if (prog == "errors") k = 1 + int(r.below(2));
+    else if (prog == "moves") k = 7;
+    else if (prog == "jtmove") k = 8;
+    else if (prog == "movejoin") k = 9;
+    else if (prog == "handles") k = 7 + int(r.below(3));
+    else if (prog == "mixed2") k = int(r.below(10));
+    else if (prog == "dtorterm") k = 10;
+    else if (prog == "joinintr") k = 11;
     else k = int(r.below(7));
     std::uint64_t s = r.next();
     switch (k)
@@ -521,6 +754,11 @@ static void scenario(std::string const& prog, std::uint64_t seed)
     case 3: sc_usercb(s); break;
     case 4: sc_twojoin(s); break;
     case 5: sc_interrupt(s); break;
+    case 7: sc_moves(s); break;
+    case 8: sc_jtmove(s); break;
+    case 9: sc_movejoin(s); break;
+    case 10: sc_dtorterm(s); break;
+    case 11: sc_joinintr(s); break;
     default: sc_jthread(s); break;
     }
 }
@@ -564,6 +802,8 @@ static void dump_join(FILE* f)
         }
         else if (s == "jn.start") { obj = H(o); a = T(rc.a); b = T(rc.b); }
         else if (s == "jn.checked") { obj = H(o); a = T(rc.a); b = T(rc.b); }
+        else if (s == "jn.mvctor" || s == "jn.mvassign" || s == "jn.swap") { obj = H(o); a = H(rc.a); b = T(rc.b); }
+        else if (s == "jn.mvterm") { obj = H(o); a = H(rc.a); }
         else if (s == "jn.resume") { obj = T(o); a = T(rc.a); }
         else if (s == "ec.add") { obj = T(o); a = T(rc.a); }
         else if (s == "x.uadd" || s == "x.cb") { obj = T(o); a = T(rc.a); }
@@ -584,6 +824,10 @@ int main(int argc, char** argv)
     int size = std::atoi(argv[4]);
     g_noexcept_yield = prog == "yieldintr";
     e2::g_wanted = &want;
+    // diagnosis aid (mutation trials): with VERIF_JOIN_TERMHANDLER set, destroying a joinable pika::thread calls this
+    // handler instead of std::terminate, so the run continues and the log shows where the model and the code part
+    if (std::getenv("VERIF_JOIN_TERMHANDLER"))
+        pika::set_thread_termination_handler([](std::exception_ptr const&) { monitor("termination handler called: a joinable pika::thread was destroyed"); });
     e2::g_max_records = 400000;    // a bounded program cannot produce more: beyond that = livelock
     e2::install(seed, perturb);
 
